@@ -502,7 +502,7 @@ def run(run, tier, replay=None):
                 c = dict(c)
                 c["id"] = f"replay{i}"
                 cases.append(c)
-        evaluate(run, cases, [], thorough, replaying=True)
+        evaluate(run, [c for c in cases if c["kind"] == "gen"], [c for c in cases if c["kind"] in ("handle", "resolve")], thorough, replaying=True)
         return
 
     # ---------------- generate cases
@@ -683,7 +683,7 @@ def evaluate(run, cases, pure_cases, thorough, n_cli=0, replaying=False):
             futs = {}
             for c, fow in cli_jobs:
                 data = bytes.fromhex(c["hex"]) if "hex" in c else c["text"].encode("utf-8", "surrogatepass")
-                futs[ex.submit(run_cli, data, c["suffix"], fow, c.get("out", "fresh"), c.get("overwrite", False))] = (c, fow)
+                futs[ex.submit(run_cli, data, c.get("suffix", ".json"), fow, c.get("out", "fresh"), c.get("overwrite", False))] = (c, fow)
             for f in cf.as_completed(futs):
                 c, fow = futs[f]
                 cr = f.result()
@@ -758,7 +758,7 @@ def evaluate(run, cases, pure_cases, thorough, n_cli=0, replaying=False):
             continue
         done_sites.add(key)
         if "doc" in c and isinstance(c["doc"], (dict, list)):
-            sj.append({"kind": "shrink", "id": "s%d" % len(sj), "doc": c["doc"], "site": r["exc"][:2], "suffix": c["suffix"], "out": c.get("out", "fresh"), "budget": 25 if thorough else 12, "_key": key})
+            sj.append({"kind": "shrink", "id": "s%d" % len(sj), "doc": c["doc"], "site": r["exc"][:2], "suffix": c.get("suffix", ".json"), "out": c.get("out", "fresh"), "budget": 25 if thorough else 12, "_key": key})
     sres = pool_run([{k: v for k, v in j.items() if k != "_key"} for j in sj], jobs=8) if sj else {}
     shrunk = {tuple(j["_key"]): sres.get(j["id"], {}).get("doc") for j in sj}
     reported = set()
@@ -771,7 +771,7 @@ def evaluate(run, cases, pure_cases, thorough, n_cli=0, replaying=False):
                    "case": {k: v for k, v in c.items() if k != "doc"}}
         if shrunk.get(key) is not None:
             payload["shrunk_document"] = shrunk[key]
-            payload["case"] = {"kind": "gen", "text": json.dumps(shrunk[key]), "suffix": c["suffix"], "out": c.get("out", "fresh"), "label": "shrunk:" + str(c.get("label"))}
+            payload["case"] = {"kind": "gen", "text": json.dumps(shrunk[key]), "suffix": c.get("suffix", ".json"), "out": c.get("out", "fresh"), "label": "shrunk:" + str(c.get("label"))}
         run.violation("oracle", payload)
     run.extra["crash_sites"] = hist
     run.extra["rejected_documents"] = rejected_total
